@@ -215,7 +215,7 @@ class CtlSim:
         self.serve_handles = self.loop.handles_run - h0
         self.serving_task = t
         if getattr(self, "old_serving_task", None) is t:
-            self.violate("C19", "restart_same_task", "serve_forever() after a complete stop returned the old, finished serving task")
+            self.violate("C19", "restart_same_task", "serve_forever() after a stop returned the old (cancelled) serving task instead of serving again")
         self.ev("serving", self.serve_handles)
         if not isinstance(t, asyncio.Task):
             self.violate("C19", "serve_forever_result", f"serve_forever() returned {type(t).__name__}, not a Task")
@@ -324,13 +324,33 @@ class CtlSim:
     def _op_start(self, st):
         if self.server is not None:
             return
+        addr = self.address()
+        if addr[0] == "unix" and self.cfg.get("stale_socket"):
+            # crash residue: an earlier server process on this path was killed and left its socket file behind
+            import socket as _socket
+            s = _socket.socket(_socket.AF_UNIX)
+            try:
+                s.bind(addr[1])
+            finally:
+                s.close()
+            self.stats["fault:stale_socket_file"] += 1
         self.server = self.make_server()
         self.serve_driver = self.loop.create_task(self._drive_serve())
 
     def _op_restart(self, st):
         """serve_forever() again on the SAME server object after a complete stop."""
-        if self.server is None or self.serving_task is None or not self.serving_task.done():
+        if self.server is None or self.serving_task is None:
             return
+        if not self.serving_task.done():
+            # "early": the old serving task was cancelled but still waits for its clients to leave.  Only over TCP
+            # (a Unix server's old task removes the socket path when it finally completes - nothing states what a
+            # second server on that path may expect) and only once the old listener has really been closed.
+            addr = self.address()
+            if not (st.get("early") and self.stopped and addr[0] == "tcp"
+                    and ("tcp", str(addr[1]), int(addr[2])) not in self.loop.net.listeners and not self.server.is_serving()):
+                return
+            self.stats["fault:server_restarted_before_old_task_done"] += 1
+            self.old_tasks = getattr(self, "old_tasks", []) + [self.serving_task]
         self.stats["fault:server_restarted"] += 1
         self.old_serving_task = self.serving_task
         self.serving_task = None
